@@ -588,17 +588,26 @@ func (h *Hub) stopTopicsForUser(uid types.Uid, reason int, alldone chan<- bool) 
 		topic := t.(*Topic)
 		if _, isMember := topic.perUser[uid]; (topic.cat != types.TopicCatGrp && isMember) ||
 			topic.owner == uid {
+			if topic.isDeleted() {
+				// Someone else (the hub on idle timeout or on {del topic}) is stopping this topic right now:
+				// its goroutine may be gone already and would never report back.
+				return true
+			}
 			topic.markDeleted()
 			h.topics.Delete(name)
 
-			// This call is non-blocking unless some other routine tries to stop it at the same time.
-			topic.exit <- &shutDown{reason: reason, done: done}
+			// Do not block if some other routine tries to stop the topic at the same time: the topic
+			// reads at most one exit request.
+			select {
+			case topic.exit <- &shutDown{reason: reason, done: done}:
+				count++
+			default:
+			}
 
 			// Just send to p2p topics here.
 			if topic.cat == types.TopicCatP2P && len(topic.perUser) == 2 {
 				presSingleUserOfflineOffline(topic.p2pOtherUser(uid), uid.UserId(), "gone", nilPresParams, "")
 			}
-			count++
 		}
 		return true
 	})
